@@ -32,7 +32,7 @@ def plan(tier, seed):
         for r in range(n if fam != 'bingham' else max(5, n // 4)):
             D = int(rng.integers(2, 8)) if fam != 'bingham' else int(rng.integers(2, 6))
             cases.append(dict(lane='trainer', fam=fam, D=D, N=int(rng.integers(D + 1, 60)), lead=pick([[], [2], [2, 2]]) if fam != 'bingham' else pick([[], [2]]),
-                              saliency=pick(['none', 'pos', 'zeros', 'int']), spread=float(10 ** rng.uniform(-1, 1.3)), rs=[seed, 8, i]))
+                              saliency=pick(['none', 'pos', 'zeros', 'int', 'pos', 'tiny', 'huge']), spread=float(10 ** rng.uniform(-1, 1.3)), rs=[seed, 8, i]))
             i += 1
     m = S(tier, 22, 220)
     for kind in models.KINDS:
@@ -99,6 +99,10 @@ def make_saliency(rng, kind, shape):
         s = rng.uniform(0.1, 1.0, size=shape) * (rng.uniform(size=shape) < 0.7)
         s[..., :2] = 0.5
         return s
+    if kind == 'tiny':
+        return rng.uniform(0.1, 1.0, size=shape) * 10.0 ** rng.uniform(-25, -15)      # positive sum far below machine epsilon
+    if kind == 'huge':
+        return rng.uniform(0.1, 1.0, size=shape) * 10.0 ** rng.uniform(15, 25)
     return rng.integers(1, 5, size=shape).astype(float)
 
 
